@@ -55,6 +55,15 @@ type Injection struct {
 
 type monitor struct{ w *World }
 
+// lock serialises the monitor in degraded mode (repo code runs goroutines of its own).
+func (m monitor) lock() func() {
+	if m.w.degraded {
+		m.w.mu.Lock()
+		return m.w.mu.Unlock
+	}
+	return func() {}
+}
+
 func (m monitor) rec() *ReqRecord {
 	if t := m.w.cur; t != nil {
 		return t.rec
@@ -63,6 +72,7 @@ func (m monitor) rec() *ReqRecord {
 }
 
 func (m monitor) BiasBefore(name string, original, current *StateSnap, props interface{}) (int, interface{}) {
+	defer m.lock()()
 	r := m.rec()
 	if r == nil {
 		return -1, nil
@@ -80,6 +90,7 @@ func (m monitor) BiasBefore(name string, original, current *StateSnap, props int
 }
 
 func (m monitor) BiasAfter(token int, next *StateSnap, report interface{}, aliases bool) {
+	defer m.lock()()
 	r := m.rec()
 	if r == nil || token < 0 || token >= len(r.Steps) {
 		return
@@ -98,6 +109,7 @@ func (m monitor) BiasAfter(token int, next *StateSnap, report interface{}, alias
 }
 
 func (m monitor) BiasPanicked(token int) {
+	defer m.lock()()
 	r := m.rec()
 	if r == nil || token < 0 || token >= len(r.Steps) {
 		return
@@ -106,6 +118,7 @@ func (m monitor) BiasPanicked(token int) {
 }
 
 func (m monitor) ListenerCall(listener, callback string) interface{} {
+	defer m.lock()()
 	r := m.rec()
 	if r == nil {
 		return nil
@@ -121,6 +134,7 @@ func (m monitor) ListenerCall(listener, callback string) interface{} {
 }
 
 func (m monitor) MethodEvaluate(method string, state *StateSnap) interface{} {
+	defer m.lock()()
 	r := m.rec()
 	if r == nil {
 		return nil
@@ -136,6 +150,7 @@ func (m monitor) MethodEvaluate(method string, state *StateSnap) interface{} {
 }
 
 func (m monitor) MethodDone(method string, state *StateSnap, ranking interface{}) {
+	defer m.lock()()
 	r := m.rec()
 	if r == nil {
 		return
@@ -145,6 +160,7 @@ func (m monitor) MethodDone(method string, state *StateSnap, ranking interface{}
 }
 
 func (m monitor) GenCreated(site string, seed int64) int {
+	defer m.lock()()
 	r := m.rec()
 	if r == nil {
 		return -1
@@ -154,6 +170,7 @@ func (m monitor) GenCreated(site string, seed int64) int {
 }
 
 func (m monitor) GenDraw(id int, v float64) {
+	defer m.lock()()
 	r := m.rec()
 	if r == nil || id < 0 || id >= len(r.Gens) {
 		return
